@@ -36,9 +36,11 @@ LEVEL_TEXT = ("Proved in Coq at full strength (Properties/C02.v), for every jour
               "C17); C02_table_cells_render -- the same for the renderer alone, valued or not, with --show-commodities (per commodity) "
               "or without (the sum over commodities).  Hypothesis of the --close cases and of C02_table_cells: the posting accounts are "
               "ones the parser can produce (postings_syntactic; C02_cells_unsyntactic_refuted shows the model, not knut, needs it).  "
-              "Not proved: the cells of the Total/Delta lines against the ledger (layout proved; Delta = 0 is C01), that no amount is "
-              "stored under the zero date (the criterion for listing a commodity line is stated on the report tree, its ledger direction "
-              "is proved), and the text of the CSV (printed numbers) = ledger_csv; these are compared with the real binary's CSV and the "
+              "C02_table_totals -- the numbers of the Total (A+L) / Total (E+I+E) / Delta lines are the ledger amounts over all A/L "
+              "accounts / all others (negated) / all accounts.  "
+              "Not proved: which commodity lines the three total rows list (their numbers and place are proved; Delta = 0 is C01), that "
+              "no amount is stored under the zero date (the criterion for listing a commodity line of an account is stated on the report "
+              "tree, its ledger direction is proved), and the text of the CSV (printed numbers) = ledger_csv; these are compared with the real binary's CSV and the "
               "model's CSV on every run, which is how the Shorten aliasing defect (fixed in /repo 2f5b0b6) was found.")
 LEVEL_NOTE = ("Trusted: kernel, extraction, harness, the hand-written model (sampled tie to the code). Parser not in the loop (C07). "
               "Cells are compared as rational values (decimal addition is exact); the table-level theorems give the decimal in the "
